@@ -115,17 +115,24 @@ var rpcCalls = []rpcCall{
 		}},
 }
 
-// runRPC builds provider, client, processor for cfg on an in-memory leg of
-// its own and makes every call once, judging each trace.
-func (mon *monitor) runRPC(cfg *config) {
-	tr := &tracer{}
-	var mode atomic.Value
+// rpcEnv is one traced server + client pair.
+type rpcEnv struct {
+	tr     *tracer
+	client *mainsvc.FFooClient
+	pings  *int64
+	mode   *atomic.Value
+}
+
+// newTracedHandler returns a stub handler that records its invocation in tr
+// and answers with handlerFn.
+func newTracedHandler(tr *tracer) (*e2e.Handler, *int64, *atomic.Value) {
+	mode := &atomic.Value{}
 	mode.Store("")
 	h := &e2e.Handler{}
-	var pings int64
+	pings := new(int64)
 	h.Behave = func(c *e2e.Call) *e2e.Outcome {
 		if c.Method == "basePing" {
-			atomic.AddInt64(&pings, 1)
+			atomic.AddInt64(pings, 1)
 		}
 		tr.add(event{"handler", "call", c.Method, renderList(c.Args)})
 		res := handlerFn(c.Method, mode.Load().(string), c.Args)
@@ -135,6 +142,87 @@ func (mon *monitor) runRPC(cfg *config) {
 		}
 		return o
 	}
+	return h, pings, mode
+}
+
+// rpcJudge makes one call through env and judges its trace and the caller's
+// results against the fold of clientChain / serverChain (outermost first).
+// fatal means the environment cannot be used any further.
+func (mon *monitor) rpcJudge(w interface{}, label string, env *rpcEnv, call rpcCall, clientChain, serverChain []*mwSpec, specs map[string]*mwSpec, class string) (ok bool, act []event, got []interface{}, fatal bool) {
+	env.mode.Store(call.Mode)
+	args := call.Args()
+	// expected: fold the declared order
+	var exp []event
+	a := foldIn(&exp, clientChain, call.Method, args)
+	split := len(exp)
+	a = foldIn(&exp, serverChain, call.Method, a)
+	exp = append(exp, event{"handler", "call", call.Method, renderList(a)})
+	res := handlerFn(call.Method, call.Mode, a)
+	res = foldOut(&exp, serverChain, call.Method, res)
+	splitOut := len(exp)
+	res = cross(call.Method, res)
+	res = foldOut(&exp, clientChain, call.Method, res)
+	wantCaller := renderList(res)
+
+	// observed
+	env.tr.take()
+	ctx := frugal.NewFContext("")
+	ctx.SetTimeout(20 * time.Second)
+	done := make(chan []interface{}, 1)
+	go func() { done <- call.Invoke(env.client, ctx, args) }()
+	select {
+	case got = <-done:
+	case <-time.After(30 * time.Second):
+		mon.run.Inconclusive(fmt.Sprintf("%s call %s did not return within 30 s", label, call.Name))
+		return false, nil, nil, true
+	}
+	if call.Class == "oneway" {
+		// the server handles one request after the other on a connection: when
+		// this two-way call returns the oneway has been processed completely
+		// (its own result may be rewritten by the middleware under test; what
+		// matters is that it reached the handler)
+		bctx := frugal.NewFContext("")
+		bctx.SetTimeout(20 * time.Second)
+		before := atomic.LoadInt64(env.pings)
+		if err := env.client.BasePing(bctx); atomic.LoadInt64(env.pings) != before+1 {
+			mon.run.Inconclusive(fmt.Sprintf("%s: barrier call after the oneway did not reach the handler: %v", label, err))
+			return false, nil, nil, true
+		}
+	}
+	for _, e := range env.tr.take() {
+		if call.Class == "oneway" && e.Method == "basePing" {
+			continue
+		}
+		act = append(act, e)
+	}
+	mon.run.Add("rpc_calls", 1)
+	mon.run.Add("trace_events", len(act))
+	if call.Class == "oneway" {
+		// client side returns as soon as the frame is sent: the two sides are
+		// only ordered by causality, judge them separately
+		expClient := append(append([]event(nil), exp[:split]...), exp[splitOut:]...)
+		expServer := exp[split:splitOut]
+		ok = mon.j.compare(w, call.Name+" (client side)", class, specs, expClient, filterSide(act, specs, "client")) &&
+			mon.j.compare(w, call.Name+" (server side)", class, specs, expServer, filterSide(act, specs, "server"))
+	} else {
+		ok = mon.j.compare(w, call.Name, class, specs, exp, act)
+	}
+	if gotS := renderList(got); ok && gotS != wantCaller {
+		mon.run.Violation("C16:caller-results:"+class, "the caller observes results other than what the outermost client-side middleware returned",
+			map[string]interface{}{"configuration": w, "call": call.Name, "expected": wantCaller, "observed": gotS, "observed_trace": evStrings(act)})
+		ok = false
+	}
+	if ok {
+		mon.run.Add("calls_conforming", 1)
+	}
+	return ok, act, got, false
+}
+
+// runRPC builds provider, client, processor for cfg on an in-memory leg of
+// its own and makes every call once, judging each trace.
+func (mon *monitor) runRPC(cfg *config) {
+	tr := &tracer{}
+	h, pings, mode := newTracedHandler(tr)
 	proc := mainsvc.NewFFooProcessor(h, tr.list(cfg.Proc, cfg.Spare[2])...)
 	for _, a := range cfg.Added {
 		proc.AddMiddleware(tr.middleware(a))
@@ -153,84 +241,20 @@ func (mon *monitor) runRPC(cfg *config) {
 	defer ft.Close()
 	provider := frugal.NewFServiceProvider(ft, leg.PF, tr.list(cfg.Provider, cfg.Spare[0])...)
 	client := mainsvc.NewFFooClient(provider, tr.list(cfg.Ctor, cfg.Spare[1])...)
+	env := &rpcEnv{tr: tr, client: client, pings: pings, mode: mode}
 
 	specs := cfg.specs()
 	clientChain := chain(cfg.Provider, cfg.Ctor) // provider wraps constructor; later-listed wraps earlier
 	serverChain := chain(cfg.Added, cfg.Proc)    // AddMiddleware (applied later) wraps the constructor list
 	mon.run.Eval(1)
 	for ci, call := range rpcCalls {
-		mode.Store(call.Mode)
-		args := call.Args()
-		// expected: fold the declared order
-		var exp []event
-		a := foldIn(&exp, clientChain, call.Method, args)
-		split := len(exp)
-		a = foldIn(&exp, serverChain, call.Method, a)
-		exp = append(exp, event{"handler", "call", call.Method, renderList(a)})
-		res := handlerFn(call.Method, call.Mode, a)
-		res = foldOut(&exp, serverChain, call.Method, res)
-		splitOut := len(exp)
-		res = cross(call.Method, res)
-		res = foldOut(&exp, clientChain, call.Method, res)
-		wantCaller := renderList(res)
-
-		// observed
-		tr.take()
-		ctx := frugal.NewFContext("")
-		ctx.SetTimeout(20 * time.Second)
-		done := make(chan []interface{}, 1)
-		go func() { done <- call.Invoke(client, ctx, args) }()
-		var got []interface{}
-		select {
-		case got = <-done:
-		case <-time.After(30 * time.Second):
-			mon.run.Inconclusive(fmt.Sprintf("configuration %d call %s did not return within 30 s", cfg.Index, call.Name))
+		ok, act, got, fatal := mon.rpcJudge(cfg, fmt.Sprintf("configuration %d", cfg.Index), env, call, clientChain, serverChain, specs, call.Class)
+		if fatal {
 			return
 		}
-		if call.Class == "oneway" {
-			// the server handles one request after the other on a connection: when
-			// this two-way call returns the oneway has been processed completely
-			// (its own result may be rewritten by the middleware under test; what
-			// matters is that it reached the handler)
-			bctx := frugal.NewFContext("")
-			bctx.SetTimeout(20 * time.Second)
-			before := atomic.LoadInt64(&pings)
-			if err := client.BasePing(bctx); atomic.LoadInt64(&pings) != before+1 {
-				mon.run.Inconclusive(fmt.Sprintf("configuration %d: barrier call after the oneway did not reach the handler: %v", cfg.Index, err))
-				return
-			}
-		}
-		var act []event
-		for _, e := range tr.take() {
-			if call.Class == "oneway" && e.Method == "basePing" {
-				continue
-			}
-			act = append(act, e)
-		}
-		mon.run.Add("rpc_calls", 1)
-		mon.run.Add("trace_events", len(act))
 		mon.run.Distinct(cfg.shape(call.Name))
-		ok := true
-		if call.Class == "oneway" {
-			// client side returns as soon as the frame is sent: the two sides are
-			// only ordered by causality, judge them separately
-			expClient := append(append([]event(nil), exp[:split]...), exp[splitOut:]...)
-			expServer := exp[split:splitOut]
-			ok = mon.j.compare(cfg, call.Name+" (client side)", call.Class, specs, expClient, filterSide(act, specs, "client")) &&
-				mon.j.compare(cfg, call.Name+" (server side)", call.Class, specs, expServer, filterSide(act, specs, "server"))
-		} else {
-			ok = mon.j.compare(cfg, call.Name, call.Class, specs, exp, act)
-		}
-		if gotS := renderList(got); ok && gotS != wantCaller {
-			mon.run.Violation("C16:caller-results:"+call.Class, "the caller observes results other than what the outermost client-side middleware returned",
-				map[string]interface{}{"configuration": cfg, "call": call.Name, "expected": wantCaller, "observed": gotS, "observed_trace": evStrings(act)})
-			ok = false
-		}
-		if ok {
-			mon.run.Add("calls_conforming", 1)
-			if len(act) > 6 && ci == cfg.Index%len(rpcCalls) {
-				mon.run.Sample(map[string]interface{}{"configuration": cfg, "call": call.Name, "trace": evStrings(act), "caller_results": renderList(got)})
-			}
+		if ok && len(act) > 6 && ci == cfg.Index%len(rpcCalls) {
+			mon.run.Sample(map[string]interface{}{"configuration": cfg, "call": call.Name, "trace": evStrings(act), "caller_results": renderList(got)})
 		}
 	}
 }
